@@ -144,13 +144,18 @@ pub fn run_workers(args: &Args, nworkers: usize, extra_args: &[String]) -> Stats
             std::thread::spawn(move || {
                 let mut total = Stats::default();
                 let mut resume_after: Option<String> = None;
-                for _attempt in 0..40 {
+                let mut resume_in: Option<(String, u64)> = None;
+                let mut aborts_per_unit: BTreeMap<String, u32> = BTreeMap::new();
+                for _attempt in 0..400 {
                     let mut cmd = Command::new(&exe);
                     cmd.arg("--prop").arg(&args.prop).arg("--tier").arg(&args.tier).arg("--seed").arg(args.seed.to_string());
                     cmd.arg("--worker").arg(format!("{}/{}", i, nworkers));
                     cmd.arg("--verif-dir").arg(&args.verif_dir);
                     if let Some(r) = &resume_after {
                         cmd.arg("--resume-after").arg(r);
+                    }
+                    if let Some((u, k)) = &resume_in {
+                        cmd.arg("--resume-unit").arg(u).arg("--skip-cases").arg(k.to_string());
                     }
                     for e in &extra {
                         cmd.arg(e);
@@ -171,27 +176,94 @@ pub fn run_workers(args: &Args, nworkers: usize, extra_args: &[String]) -> Stats
                         tail
                     });
                     let mut last_unit = String::new();
+                    let mut last_case: Option<u64> = None;
                     let mut done = false;
-                    for l in BufReader::new(out).lines().flatten() {
-                        if let Some(u) = l.strip_prefix("UNIT ") {
-                            last_unit = u.to_string();
-                        } else if let Some(s) = l.strip_prefix("STATS ") {
-                            match serde_json::from_str::<Stats>(s) {
-                                Ok(st) => total.merge(st),
-                                Err(e) => eprintln!("worker {}: bad stats: {}", i, e),
+                    // watchdog: a unit that makes no progress for `unit_timeout` is killed and
+                    // reported as inconclusive (never as a violation); the shard then resumes
+                    let unit_timeout = std::time::Duration::from_secs(
+                        args.extra.iter().position(|x| x == "--unit-timeout").and_then(|k| args.extra.get(k + 1)).and_then(|v| v.parse().ok()).unwrap_or(if args.tier == "thorough" { 1800 } else { 300 }),
+                    );
+                    let (tx, rx) = std::sync::mpsc::channel::<String>();
+                    let reader = std::thread::spawn(move || {
+                        for l in BufReader::new(out).lines().flatten() {
+                            if tx.send(l).is_err() {
+                                break;
                             }
-                        } else if l == "DONE" {
-                            done = true;
+                        }
+                    });
+                    let mut timed_out = false;
+                    loop {
+                        match rx.recv_timeout(unit_timeout) {
+                            Ok(l) => {
+                                if let Some(u) = l.strip_prefix("UNIT ") {
+                                    last_unit = u.to_string();
+                                    last_case = None;
+                                } else if let Some(k) = l.strip_prefix("CASE ") {
+                                    last_case = k.trim().parse().ok();
+                                } else if let Some(s) = l.strip_prefix("STATS ") {
+                                    match serde_json::from_str::<Stats>(s) {
+                                        Ok(st) => total.merge(st),
+                                        Err(e) => eprintln!("worker {}: bad stats: {}", i, e),
+                                    }
+                                } else if l == "DONE" {
+                                    done = true;
+                                }
+                            }
+                            Err(std::sync::mpsc::RecvTimeoutError::Timeout) => {
+                                timed_out = true;
+                                let _ = child.kill();
+                                break;
+                            }
+                            Err(std::sync::mpsc::RecvTimeoutError::Disconnected) => break,
                         }
                     }
                     let status = child.wait().unwrap();
+                    let _ = reader.join();
+                    if timed_out {
+                        let _ = errh.join();
+                        total.inconclusive.push(format!("watchdog: worker {} made no progress for {:?} in unit {} (killed; hang or very slow case)", i, unit_timeout, last_unit));
+                        if last_unit.is_empty() {
+                            return total;
+                        }
+                        resume_after = Some(last_unit);
+                        resume_in = None;
+                        continue;
+                    }
                     let tail = errh.join().unwrap().join("\n");
                     if status.success() && done {
                         return total;
                     }
                     use std::os::unix::process::ExitStatusExt;
                     let oom = tail.contains("memory allocation of") || tail.contains("capacity overflow");
+                    // size of the failed allocation, if the runtime reported one
+                    let oom_bytes: Option<u128> = tail.rsplit("memory allocation of ").next().and_then(|t| t.split(' ').next()).and_then(|n| n.parse().ok()).filter(|_| tail.contains("memory allocation of"));
+                    let case_resumable = last_case.is_some() && extra.iter().any(|x| x == "--oom-abort-excepted");
                     if let Some(sig) = status.signal() {
+                        if case_resumable && (sig == 14 || (oom && oom_bytes.map_or(false, |b| b >= 1 << 30))) {
+                            // C06: an allocation of >= 1 GiB requested for a small crafted input is a
+                            // genuine out-of-memory on an absurd declared length (excepted by the
+                            // property); SIGALRM = one case exceeded its time limit. Both are counted
+                            // and the unit continues after the case.
+                            let key = if sig == 14 { "case_time_limit_exceeded" } else { "oom_abort_on_absurd_length_excepted" };
+                            *total.excluded.entry(key.to_string()).or_insert(0) += 1;
+                            if sig == 14 {
+                                total.notes.push(format!("case {} of unit {} exceeded the per-case time limit (killed)", last_case.unwrap(), last_unit));
+                            }
+                            let cnt = aborts_per_unit.entry(last_unit.clone()).or_insert(0u32);
+                            *cnt += 1;
+                            if *cnt >= (if args.tier == "thorough" { 25 } else { 6 }) {
+                                // this type keeps exhausting memory/time on crafted lengths: stop
+                                // spending the budget on it and go on with the next unit
+                                *total.excluded.entry("unit_cut_short_after_repeated_excepted_aborts".to_string()).or_insert(0) += 1;
+                                total.notes.push(format!("unit {} cut short after repeated excepted aborts (allocation failure / time limit on absurd declared lengths)", last_unit));
+                                resume_after = Some(last_unit.clone());
+                                resume_in = None;
+                                continue;
+                            }
+                            resume_after = None;
+                            resume_in = Some((last_unit.clone(), last_case.unwrap() + 1));
+                            continue;
+                        }
                         if oom {
                             total.inconclusive.push(format!("worker {} aborted on allocation failure in unit {}: {}", i, last_unit, tail));
                         } else {
@@ -211,6 +283,7 @@ pub fn run_workers(args: &Args, nworkers: usize, extra_args: &[String]) -> Stats
                         return total;
                     }
                     resume_after = Some(last_unit);
+                    resume_in = None;
                 }
                 total.inconclusive.push(format!("worker {}: too many crashes, shard abandoned", i));
                 total
@@ -230,12 +303,24 @@ pub struct Shard {
     n: usize,
     counter: usize,
     resume_after: Option<String>,
+    /// resume inside this unit: skip the first k cases of it
+    resume_unit: Option<String>,
+    pub skip_cases: u64,
 }
 impl Shard {
     pub fn new(args: &Args) -> Shard {
         let (idx, n) = args.worker.expect("worker mode");
         let resume_after = args.extra.iter().position(|x| x == "--resume-after").and_then(|i| args.extra.get(i + 1).cloned());
-        Shard { idx, n, counter: 0, resume_after }
+        let get = |name: &str| args.extra.iter().position(|x| x == name).and_then(|i| args.extra.get(i + 1).cloned());
+        let resume_unit = get("--resume-unit");
+        let skip_cases = get("--skip-cases").and_then(|v| v.parse().ok()).unwrap_or(0);
+        Shard { idx, n, counter: 0, resume_after, resume_unit, skip_cases }
+    }
+    /// number of leading cases to skip for the unit just taken (0 unless resuming inside it)
+    pub fn skip_for_current(&mut self) -> u64 {
+        let k = self.skip_cases;
+        self.skip_cases = 0;
+        k
     }
     /// returns true if the unit belongs to this shard and should be run now (announces it)
     pub fn take(&mut self, unit: &str) -> bool {
@@ -248,6 +333,14 @@ impl Shard {
                 self.resume_after = None;
             }
             return false;
+        }
+        if let Some(r) = &self.resume_unit {
+            if r != unit {
+                return false;
+            }
+            self.resume_unit = None;
+        } else {
+            self.skip_cases = 0;
         }
         announce_unit(unit);
         true
@@ -264,6 +357,13 @@ pub fn worker_emit(stats: &Stats) {
     let out = std::io::stdout();
     let mut o = out.lock();
     writeln!(o, "STATS {}", serde_json::to_string(stats).unwrap()).unwrap();
+    o.flush().unwrap();
+}
+
+pub fn announce_case(k: u64) {
+    let out = std::io::stdout();
+    let mut o = out.lock();
+    writeln!(o, "CASE {}", k).unwrap();
     o.flush().unwrap();
 }
 
